@@ -31,6 +31,9 @@ func (k msgServer) UpdateSubDistributorParam(goCtx context.Context, distributor 
 	if k.authority != distributor.Authority {
 		return nil, errors.Wrapf(govtypes.ErrInvalidSigner, "invalid authority; expected %s, got %s", k.authority, distributor.Authority)
 	}
+	if distributor.SubDistributor == nil {
+		return nil, errors.Wrapf(govtypes.ErrInvalidProposalMsg, "sub distributor cannot be nil")
+	}
 	ctx := sdk.UnwrapSDKContext(goCtx)
 	subDistributors := k.Keeper.GetParams(ctx).SubDistributors
 	for i, subDistributor := range subDistributors {
